@@ -13,7 +13,42 @@ def be32 (data : Bytes) (off : Nat) : Nat := beNat ((data.drop off).take 4)
 /-- item counts of the `n` index entries that start at `base` -/
 def counts (data : Bytes) (base : Nat) (n : Nat) : List Nat := (List.range n).map fun i => be32 data (base + 16 * i + 12)
 
-/-- the running-sum test of the entry loop: no prefix of the counts sums to more than the store length -/
+/-- (type, offset, count) of the `n` index entries that start at `base` -/
+def entries (data : Bytes) (base : Nat) (n : Nat) : List (Nat × Nat × Nat) :=
+  (List.range n).map fun i => (be32 data (base + 16 * i + 4), be32 data (base + 16 * i + 8), be32 data (base + 16 * i + 12))
+
+/-- `bytes.IndexByte(s, 0)`, or the length when there is no NUL -/
+def nulIndex (s : Bytes) : Nat := (s.takeWhile (· ≠ 0)).length
+
+/-- the string loop `for s < count && o < l && extent <= l`: the extent after walking `count` strings from `o` -/
+def strWalk (store : Bytes) (l : Nat) : Nat → Nat → Nat → Nat
+  | 0, _, ext => ext
+  | c + 1, o, ext =>
+    if o < l ∧ ext ≤ l then
+      let j := nulIndex (store.drop o)
+      strWalk store l c (o + j + 1) (ext + j + 1)
+    else ext
+
+/-- the bytes of the store an entry's values occupy, added to the running extent -/
+def addExtent (store : Bytes) (l : Nat) (ext : Nat) : Nat × Nat × Nat → Nat
+  | (typ, o, count) =>
+    if typ = 1 ∨ typ = 2 ∨ typ = 7 then ext + count
+    else if typ = 3 then ext + 2 * count
+    else if typ = 4 then ext + 4 * count
+    else if typ = 5 then ext + 8 * count
+    else if typ = 6 ∨ typ = 8 ∨ typ = 9 then strWalk store l count o ext
+    else ext
+
+/-- the entry loop: running sums of item counts and of value extents, refused as soon as either exceeds the store -/
+def within (store : Bytes) (l : Nat) : Nat → Nat → List (Nat × Nat × Nat) → Bool
+  | _, _, [] => true
+  | items, ext, e :: es =>
+    if items + e.2.2 > l then false
+    else
+      let ext' := addExtent store l ext e
+      if ext' > l then false else within store l (items + e.2.2) ext' es
+
+/-- the running-sum test on the counts alone (implied by `within`) -/
 def sumsWithin (l : Nat) : Nat → List Nat → Bool
   | _, [] => true
   | acc, c :: cs => if acc + c > l then false else sumsWithin l (acc + c) cs
@@ -32,7 +67,7 @@ def header (data : Bytes) (off : Nat) : Step :=
     let n := be32 data (off + 8)
     let l := be32 data (off + 12)
     if n > avail / 16 ∨ l > avail - 16 * n then .refuse
-    else if ¬ sumsWithin l 0 (counts data (off + 16) n) then .refuse
+    else if ¬ within ((data.drop (off + 16 + 16 * n)).take l) l 0 0 (entries data (off + 16) n) then .refuse
     else
       let off' := off + 16 + (16 * n + l)
       .next (if l % 8 = 0 then off' else off' + (8 - l % 8))
